@@ -41,7 +41,7 @@ def c18_4(rep):
                 if not uses:
                     continue
                 txt = " ".join(u(h).split())[:100]
-                if isinstance(s, ast.Raise):
+                if isinstance(s, ast.Raise) or is_exception_return(s):
                     rep.ok(R, ix.site(f, s), "`%s`: position used in an exception message" % txt)
                 elif isinstance(s, ast.Assign) and len(s.targets) == 1 and isinstance(s.targets[0], ast.Name) and s.targets[0].id in tainted:
                     rep.ok(R, ix.site(f, s), "`%s`: position kept in a local that only reaches exception messages" % txt)
@@ -68,3 +68,8 @@ def pos_expr(e, tainted):
     if isinstance(e, ast.Call) and isinstance(e.func, ast.Attribute) and e.func.attr in POS_ATTRS and looks_like_tree(e.func.value, tainted):
         return True
     return False
+
+
+def is_exception_return(s):
+    """`return SomeError(...)`: a helper that builds the exception its callers raise"""
+    return isinstance(s, ast.Return) and isinstance(s.value, ast.Call) and u(s.value.func).split(".")[-1].endswith(("Error", "Exception"))
